@@ -22,9 +22,9 @@ ASSUMPTIONS = [
 ]
 PROP_ASSUMPTIONS = {}
 BOUNDED = {}
-_NUC_VEC = ['Vector constructors from iterator ranges that are not pointers; reverse iterators (rbegin/rend/crbegin/crend); operator<=> (C++20); swap2 with size types other than 8/16 bit',
+_NUC_VEC = ['Vector constructors from iterator ranges that are not pointers; operator<=> (C++20); swap2 with size types other than 8/16 bit',
             'allocators other than amc::allocator (the allocate-relocate-deallocate path is exercised through the non trivially relocatable category only); element types with throwing moves; 32/64-bit and signed size types of the vectors']
-_NUC_FS = ['FlatSet: <=> (C++20); reverse iterators; heterogeneous (transparent) lookups; insert(initializer_list), operator=(initializer_list), operator=(vector&&) (same code path as the bounded insert(first,last) / construction from a vector); copy assignment',
+_NUC_FS = ['FlatSet: <=> (C++20); heterogeneous (transparent) lookups; insert(initializer_list), operator=(initializer_list), operator=(vector&&) (same code path as the bounded insert(first,last) / construction from a vector); copy assignment',
            'FlatSet merge x2, insert(first,last), construction from a vector: bounded stand-ins only (see coverage.bounded)']
 _NUC_SS = ['SmallSet: comparison operators (is_permutation, lambdas, std::visit), insert(first,last), insert(initializer_list), constructors / destructor / copy / move, the std::set-backed instantiation (variant iterators), rbegin/rend',
            'SmallSet::merge: bounded stand-in only (see coverage.bounded); SmallSet large state = abstract SetSpec (FlatSet single-element operations are proved against the same step function in the fs.* units)']
@@ -111,7 +111,8 @@ def units():
           ('op_eq__r%(V)s_c', ['C01', 'C20']), ('op_lt__r%(V)s_c', ['C01', 'C20']), ('op_ne__r%(V)s_c', ['C01', 'C20']),
           ('op_le__r%(V)s_c', ['C01', 'C20']), ('op_gt__r%(V)s_c', ['C01', 'C20']), ('op_ge__r%(V)s_c', ['C01', 'C20']),
           ('assign__pE_pE', ALLP), ('insert__pE_pE_pE', ALLP), ('pop_back_val__v', ['C01', 'C02', 'C05', 'C07', 'C09']),
-          ('op_index__%(S)s', ['C01']), ('data__v', ['C01']), ('end__v', ['C01']), ('front__v', ['C01']), ('back__v', ['C01']), ('cend__v_c', ['C01', 'C20'])]
+          ('op_index__%(S)s', ['C01']), ('data__v', ['C01']), ('end__v', ['C01']), ('front__v', ['C01']), ('back__v', ['C01']), ('cend__v_c', ['C01', 'C20']),
+          ('rbegin__v', ['C01']), ('rend__v', ['C01']), ('rbegin__v_c', ['C01', 'C20']), ('rend__v_c', ['C01', 'C20']), ('crbegin__v_c', ['C01', 'C20']), ('crend__v_c', ['C01', 'C20'])]
     # operations defined one level below VectorImpl (DynamicVector / StaticVector)
     DPAT = {'small': 'DynamicVector_E_A_%s_t', 'std': 'DynamicVector_E_A_%s_f', 'static': 'StaticVector_E_%s_Exc'}
     L2D = [('emplace_back__rE', ALLP + ['C10'], 1), ('emplace_back__rrE', ALLP, 2), ('emplace_back__rri32', ALLP, 3),
@@ -125,10 +126,12 @@ def units():
                     pp = [p for p in props if not (fl == 'static' and p in ('C06', 'C18')) and not (fl == 'std' and p == 'C05')]
                     m2 = m % {'S': sz, 'V': vpat % sz}
                     add('op.%s.%s.%s.%s' % (m2.split('__')[0] + '_' + m2.split('__')[1][:12], fl, et, sz), (vpat % sz) + '__' + m2, pp, fnum, bpat % sz, sz, elem,
-                        throws_reachable=not m2.startswith(('op_eq', 'op_lt', 'op_ne', 'op_le', 'op_gt', 'op_ge', 'pop_back_val', 'op_index', 'data', 'end', 'front', 'back', 'cend')))
+                        throws_reachable=not m2.startswith(('op_eq', 'op_lt', 'op_ne', 'op_le', 'op_gt', 'op_ge', 'pop_back_val', 'op_index', 'data', 'end', 'front', 'back', 'cend', 'rbegin', 'rend', 'crbegin', 'crend')))
                     if m2.startswith(('op_lt', 'op_le', 'op_gt', 'op_ge', 'op_ne')):
                         sw = m2.startswith(('op_gt', 'op_le'))
                         us[-1]['defs'].update({'WITH_EXT_CMP': '1', 'CMP_L': 'o' if sw else 'self', 'CMP_R': 'self' if sw else 'o', 'CMP_NEG': '1' if m2.startswith(('op_le', 'op_ge', 'op_ne')) else '0'})
+                    if m2.startswith(('rbegin', 'rend', 'crbegin', 'crend')):
+                        us[-1]['defs'].update({'ACC_IS_END': '1' if m2.startswith(('rbegin', 'crbegin')) else '0'})
                     if m2.startswith(('end', 'cend', 'data', 'front', 'back')):
                         us[-1]['defs'].update({'ACC_IS_END': '1' if m2.startswith(('end', 'cend')) else '0', 'ACC_IS_BACK': '1' if m2.startswith('back') else '0'})
                 for m, props, ek in L2D:
@@ -278,7 +281,8 @@ def units():
                          ('cbegin__v_c', ['C03', 'C20']), ('cend__v_c', ['C03', 'C20']), ('data__v_c', ['C03', 'C20']), ('front__v_c', ['C03', 'C20']),
                          ('back__v_c', ['C03', 'C20']), ('op_index__%s_c' % fsz, ['C03', 'C20']), ('at__%s_c' % fsz, ['C03', 'C08', 'C20']),
                          ('op_lt__r%s_c' % FS, ['C03', 'C20']), ('op_le__r%s_c' % FS, ['C03', 'C20']), ('op_gt__r%s_c' % FS, ['C03', 'C20']),
-                         ('op_ge__r%s_c' % FS, ['C03', 'C20'])]:
+                         ('op_ge__r%s_c' % FS, ['C03', 'C20']), ('rbegin__v_c', ['C03', 'C20']), ('rend__v_c', ['C03', 'C20']),
+                         ('crbegin__v_c', ['C03', 'C20']), ('crend__v_c', ['C03', 'C20'])]:
             if m == 'ctor__v' and fsz == 'u8':
                 continue        # the default constructor is instantiated for the default (32-bit) FlatSet only
             add('fs.%s.NR.%s' % (m.replace('__', '_').replace(FS, 'FS'), fsz), FS + '__' + m, props, 2, 'StdVectorBase_E_A_' + fsz, fsz, 'ElemNR', tier=tier,
@@ -291,6 +295,8 @@ def units():
                     swapped = m.startswith(('op_gt', 'op_le'))
                     us[-1]['defs'].update({'FS_CMP_L': 'o' if swapped else 'self', 'FS_CMP_R': 'self' if swapped else 'o', 'WITH_EXT_CMP': '1',
                                            'CMP_NEG': '1' if m.startswith(('op_le', 'op_ge')) else '0'})
+            if m.startswith(('rbegin', 'rend', 'crbegin', 'crend')):
+                us[-1]['defs'].update({'ACC_IS_END': '1' if m.startswith(('rbegin', 'crbegin')) else '0'})
             if m.startswith(('begin', 'end', 'cbegin', 'cend', 'data', 'front', 'back')):
                 us[-1]['defs'].update({'ACC_IS_END': '1' if m.startswith(('end', 'cend')) else '0', 'ACC_IS_BACK': '1' if m.startswith('back') else '0'})
             if m.startswith('at__'):
